@@ -104,8 +104,22 @@ def last_write_values(prog, fn, field, selfarg=1, depth=0, memo=None):
         if OUT.get(b) == o:
             continue
         OUT[b] = o
+        tb = fn.term(b)
+        refine = None
+        if tb[0] == "sw":
+            de = fn.expr(tb[1])
+            if mir.is_self_field(de, field, selfarg):
+                refine = tb
         for s in succ[b]:
-            n = IN[s] | o
+            oo = o
+            if refine is not None and UNSET in o:
+                # on this edge the (so far unwritten) flag is known to equal the switch value
+                vals = [v for v, bb2 in refine[2] if bb2 == s]
+                if s != refine[3] and len(vals) == 1:
+                    oo = (o - {UNSET}) | {vals[0]}
+                elif s == refine[3] and not vals and refine[4] == "bool" and [v for v, _ in refine[2]] == [0]:
+                    oo = (o - {UNSET}) | {1}
+            n = IN[s] | oo
             if n != IN[s] or s not in OUT:
                 IN[s] = n
                 work.append(s)
@@ -357,7 +371,13 @@ def canon_body(fn, abstract=None):
 
 # ------------------------------------------------------------------ slice windows
 
-INDEX_FN = re.compile(r"ops::Index(Mut)?<I> for (\[T; N\]|\[T\]|alloc::vec::Vec<T, A>)>::index(_mut)?$|slice::index::<impl core::ops::Index(Mut)?<I> for \[T\]>::index(_mut)?$")
+class _IndexFn:
+    """Matches the resolved names of the slice / array / Vec Index and IndexMut implementations."""
+    def search(self, name):
+        return ("ops::Index" in name) and (name.endswith("::index") or name.endswith("::index_mut"))
+
+
+INDEX_FN = _IndexFn()
 
 
 def window(fn, e):
